@@ -28,6 +28,8 @@ def _is_name(s):
 @st.composite
 def raw_name(draw, max_len=6):
     first = draw(st.sampled_from(_ALNUM))
+    if draw(st.integers(0, 19)) == 0:
+        max_len = 48          # occasionally a long identifier
     rest = draw(st.text(alphabet=_ALNUM_, max_size=max_len - 1))
     return first + rest
 
@@ -339,7 +341,11 @@ def _num_operand(draw, ctx, depth, kind, symbolic, prev_op, base_positive_litera
     if k == "idx":
         return A.Operand(signs, draw(index_of(ctx, draw(st.sampled_from(arrs)), depth - 1)))
     if k == "paren":
-        return A.Operand(signs, A.Paren(draw(num_expr(ctx, depth - 1, kind, symbolic))))
+        inner = A.Paren(draw(num_expr(ctx, depth - 1, kind, symbolic)))
+        if draw(st.integers(0, 24)) == 0:
+            for _ in range(draw(st.integers(4, 24))):      # deeply nested but legal brackets
+                inner = A.Paren(F1(inner))
+        return A.Operand(signs, inner)
     if k == "param":
         return A.Operand(signs, A.Param(draw(st.sampled_from(ctx.params))))
     if k == "symvar":
@@ -500,6 +506,8 @@ def mode_expr(draw, ctx, max_mode=12):
         choices.append("var")
     k = draw(st.sampled_from(choices))
     if k == "lit":
+        if draw(st.integers(0, 14)) == 0:
+            return F1(A.Num("int", str(draw(st.sampled_from([127, 255, 256, 1000, 65535, 65536, 10 ** 6, 2 ** 31 - 1, 2 ** 31, 2 ** 40])))))   # large mode numbers
         return F1(A.Num("int", draw(int_lexeme(maxv=max_mode))))
     if k == "loop":
         return F1(A.Var(ctx.loopvar[0]))
